@@ -45,8 +45,14 @@ Fixpoint docs_consume (f : list tok) : bool :=
    FuelProofs.v) and above twice the length of the text (expression sizes for the top-down optimizer passes) *)
 Definition default_fuel (text : str) (forest : list tok) : nat := 2 * blen text + fdepth forest + length forest + 16.
 
-(* ex = grammar-extras; lr, tg = the two C06 repairs present in the tree or not *)
-Definition shipped (ex lr tg : bool) : flags :=
-  {| extras := ex; fix_escape := false; fix_peek := false; fix_choice := false; fix_unroll := false; fix_lr := lr; fix_tag := tg |}.
-Definition repaired (ex lr tg : bool) : flags :=
-  {| extras := ex; fix_escape := true; fix_peek := true; fix_choice := true; fix_unroll := true; fix_lr := lr; fix_tag := tg |}.
+(* the state of the tree apart from the C09 repairs: ex = grammar-extras; lr, tg = the two C06 repairs, ins = the C07 repair *)
+Record tree_state := { st_extras : bool; st_lr : bool; st_tag : bool; st_insens : bool }.
+Definition shipped (st : tree_state) : flags :=
+  {| extras := st_extras st; fix_escape := false; fix_peek := false; fix_choice := false; fix_unroll := false;
+     fix_lr := st_lr st; fix_tag := st_tag st; fix_insens := st_insens st |}.
+Definition repaired (st : tree_state) : flags :=
+  {| extras := st_extras st; fix_escape := true; fix_peek := true; fix_choice := true; fix_unroll := true;
+     fix_lr := st_lr st; fix_tag := st_tag st; fix_insens := st_insens st |}.
+(* the tree as it is when this file was written: the C06 and C07 repairs are in *)
+Definition current : tree_state := {| st_extras := false; st_lr := true; st_tag := true; st_insens := true |}.
+Definition original : tree_state := {| st_extras := false; st_lr := false; st_tag := false; st_insens := false |}.
